@@ -58,6 +58,9 @@ class Prop(PropBase):
                     cfg = scen.rand_cfg(rng, dense=rng.randrange(2), wait=0 if rng.random() < 0.3 else 1, pktcb=0, min=0.0, max=0.0, tf=tf)
                     out.append(scen.mixed_scenario(rng, self.L, t, f'c02_tf_{t}_{r}_{j}', cfg, malformed_p=0.0, badblk_p=0.0, gap_p=0.1,
                                                    dist=far, rpm=rng.choice([600, 1200]), npk=2 if t != 'RSM1_JUMBO' else 1))
+        # the pose belongs to the instance: an identity-pose driver next to one with a pose, same and different types
+        for k, (a, b) in enumerate([('RS16', 'RS16'), ('RSM1', 'RSHELIOS')] if tier == 'quick' else [('RS16', 'RS16'), ('RSM1', 'RSHELIOS'), ('RS32', 'RS32'), ('RSBP', 'RS128')]):
+            out.append(scen.tf_pair_scenario(rng, self.L, f'c02_tfpair_{k}', a, b) if self.L[a].mech and self.L[b].mech else scen.tf_pair_scenario(rng, self.L, f'c02_tfpair_{k}'))
         return out
 
     def generate(self, rng, tier):
